@@ -348,6 +348,15 @@ class History:
                     self.ctx.skip("reference result not reproducible (two fresh objects disagree)")
                     self.dead = True
                     return True
+                if step.get("method") == "lsq" and d[0].split("[")[0] in ("forces", "table"):
+                    # Levenberg-Marquardt on a system whose minimiser is not unique (lattices): which minimiser it
+                    # reaches depends on the last bits of the assembled matrix (summation order), so only histories
+                    # with a unique optimum are held to the reference values
+                    rec = getattr(self.fsys.force_matrices[t], "_verif_record", None)
+                    if rec is not None and not infer.full_column_rank(np.asarray(rec["mprime"], float), 1e-8):
+                        self.ctx.skip("lsq on a rank-deficient system: minimiser not unique, values not compared")
+                        self.dead = True
+                        return True
                 return self.fail("differs-from-fresh-object:" + d[0].split("[")[0], observed=d[1], expected=d[2],
                                  detail={"where": d[0], "frame": t}) or True
             self.ctx.count("fresh-comparisons")
